@@ -93,6 +93,51 @@ type isoWorld struct {
 	hintOf  map[string]string
 	// one relying party with PKCE whose login handler is shared by every browser
 	rpLogin http.Handler
+	// one remote key set shared by all verifications; JWKS = [key a with key id "a", key b without key id]
+	ks     oidc.KeySet
+	ksDown atomic.Bool
+	ksTok  map[string]string
+	// a provider whose signing key does not fit the algorithm it announces
+	provBroken  http.Handler
+	storeBroken *modelstore.Store
+}
+
+type ksTransport struct{ body []byte }
+
+func (t ksTransport) RoundTrip(r *http.Request) (*http.Response, error) {
+	if iso.ksDown.Load() {
+		return &http.Response{StatusCode: 503, Header: http.Header{}, Body: io.NopCloser(strings.NewReader("down")), Request: r}, nil
+	}
+	return &http.Response{StatusCode: 200, Header: http.Header{"Content-Type": {"application/json"}}, Body: io.NopCloser(strings.NewReader(string(t.body))), Request: r}, nil
+}
+
+func ksVerify(tok string) string {
+	jws, err := jose.ParseSigned(tok, []jose.SignatureAlgorithm{jose.ES256})
+	if err != nil {
+		return "unparsable"
+	}
+	if _, err := iso.ks.VerifySignature(context.Background(), jws); err != nil {
+		return "rejected: " + err.Error()
+	}
+	return "ok"
+}
+
+func pkgErrors() string {
+	vals := []error{op.ErrInvalidAuthHeader, op.ErrNoClientCredentials, op.ErrMissingClientID, op.ErrInvalidIssuerPath, op.ErrInvalidIssuerNoIssuer, op.ErrInvalidIssuerURL,
+		op.ErrInvalidIssuerMissingHost, op.ErrInvalidIssuerHTTPS, op.ErrNilEndpoint, op.ErrKeySetUnavailable, op.ErrAuthReqMissingClientID, op.ErrAuthReqMissingRedirectURI,
+		op.ErrSignerCreationFailed, op.ErrInvalidRefreshToken, op.ErrDuplicateUserCode, oidc.ErrKeyMultiple, oidc.ErrKeyNone, oidc.ErrParse, oidc.ErrIssuerInvalid,
+		oidc.ErrDiscoveryFailed, oidc.ErrSubjectMissing, oidc.ErrAudience, oidc.ErrAzpMissing, oidc.ErrAzpInvalid, oidc.ErrSignatureMissing, oidc.ErrSignatureMultiple,
+		oidc.ErrSignatureUnsupportedAlg, oidc.ErrSignatureInvalidPayload, oidc.ErrSignatureInvalid, oidc.ErrExpired, oidc.ErrIatMissing, oidc.ErrIatInFuture, oidc.ErrIatToOld,
+		oidc.ErrNonceInvalid, oidc.ErrAcrInvalid, oidc.ErrAuthTimeNotPresent, oidc.ErrAuthTimeToOld, oidc.ErrAtHash}
+	parts := []string{}
+	for _, e := range vals {
+		v := reflect.ValueOf(e)
+		for v.Kind() == reflect.Pointer && !v.IsNil() {
+			v = v.Elem()
+		}
+		parts = append(parts, fmt.Sprintf("%T:%+v", e, v.Interface()))
+	}
+	return strings.Join(parts, " | ")
 }
 
 const isoTenantA, isoTenantB = "tenant-a.example.test", "tenant-b.example.test"
@@ -249,9 +294,31 @@ func isoSetup() {
 	}
 	var nState atomic.Int64
 	iso.rpLogin = rp.AuthURLHandler(func() string { return fmt.Sprintf("state-%d", nState.Add(1)) }, party, rp.WithURLParam("tenant", "x"))
+	ka, kb, kx := modelstore.GenKey("c20-ks-a", jose.ES256), modelstore.GenKey("c20-ks-b", jose.ES256), modelstore.GenKey("c20-ks-stranger", jose.ES256)
+	jwks, _ := json.Marshal(jose.JSONWebKeySet{Keys: []jose.JSONWebKey{{Key: ka.Pub, KeyID: "a", Use: "sig", Algorithm: "ES256"}, {Key: kb.Pub, Use: "sig", Algorithm: "ES256"}}})
+	iso.ks = rp.NewRemoteKeySet(&http.Client{Transport: ksTransport{jwks}}, isoOP+"/shared-keys")
+	iso.ksTok = map[string]string{"good": signJWT([]byte(`{"sub":"x"}`), ka, "a"), "unknownKid": signJWT([]byte(`{"sub":"x"}`), kx, "zzz"), "noKid": signNoKid([]byte(`{"sub":"x"}`), kb)}
+	ksVerify(iso.ksTok["good"]) // the key set has downloaded the JWKS once
+	rsaKey := modelstore.GenKey("c20-broken-rsa", jose.RS256)
+	broken := *rsaKey
+	broken.Alg = jose.ES256 // announces ES256 over an RSA key: the signer cannot be created
+	iso.storeBroken = modelstore.New(opdrv.BuildRegs(w), &broken)
+	if iso.provBroken, _, err = opdrv.BuildProvider(iso.storeBroken, opdrv.DefaultCfg("P")); err != nil {
+		panic(err)
+	}
 	iso.claims0 = append([]string(nil), op.DefaultSupportedClaims...)
 	iso.scopes0 = append([]string(nil), op.DefaultSupportedScopes...)
 	iso.pristine = isoSnapshot()
+}
+
+func signNoKid(payload []byte, key *modelstore.SignKey) string {
+	signer, err := jose.NewSigner(jose.SigningKey{Algorithm: key.Alg, Key: key.Priv}, (&jose.SignerOptions{}).WithType("JWT"))
+	if err != nil {
+		panic(err)
+	}
+	jws, _ := signer.Sign(payload)
+	s, _ := jws.CompactSerialize()
+	return s
 }
 
 func isoReq(h http.Handler, method, path string, form url.Values, clientID string) *opdrv.RawResponse {
@@ -345,13 +412,17 @@ func isoSnapshot() map[string]string {
 	s["dynProvider.tenantB.foreignHint"] = logoutAt(isoTenantB, isoTenantA)
 	s["providerA.tokenSignature"] = signsWithOwnKey(iso.provA)
 	s["providerB.tokenSignature"] = signsWithOwnKey(iso.provB)
+	iso.ksDown.Store(true)
+	s["sharedKeySet.servesFromCache"] = ksVerify(iso.ksTok["good"])
+	iso.ksDown.Store(false)
+	s["packageLevelErrors"] = pkgErrors()
 	return s
 }
 
 // isoHealthy: cells with a value that must hold at any time, whatever ran before
 var isoHealthy = map[string]string{"dynProvider.tenantA.ownHint": "accepted", "dynProvider.tenantB.ownHint": "accepted", "dynProvider.tenantB.foreignHint": "refused",
 	"providerA.tokenSignature": "ownKeys", "providerB.tokenSignature": "ownKeys",
-	"callerInterceptorChain": "first,second,third", "routerA2.interceptorOrder": "first>second>third"}
+	"callerInterceptorChain": "first,second,third", "routerA2.interceptorOrder": "first>second>third", "sharedKeySet.servesFromCache": "ok"}
 
 func isoRestore() {
 	*op.DefaultEndpoints = iso.defaultEPs
@@ -470,6 +541,19 @@ func isoExec(name string) {
 		rs.Introspect[*oidc.IntrospectionResponse](ctx, iso.rsCaller, "tok")
 	case name == "tokenexchange.ExchangeToken(caller)":
 		tokenexchange.ExchangeToken(ctx, iso.te, "subject", oidc.AccessTokenType, "", "", nil, nil, nil, oidc.AccessTokenType)
+	case name == "keySet.verify(good)":
+		ksVerify(iso.ksTok["good"])
+	case name == "keySet.verify(unknownKid)":
+		ksVerify(iso.ksTok["unknownKid"])
+	case name == "keySet.verify(noKid)":
+		ksVerify(iso.ksTok["noKid"])
+	case name == "brokenSignerProvider.implicitCallback":
+		r := isoReq(iso.provBroken, http.MethodGet, "/authorize", url.Values{"client_id": {"cx"}, "redirect_uri": {opdrv.ConcreteURI["ucx"]}, "response_type": {"id_token token"},
+			"scope": {"openid"}, "state": {"state-of-another-user"}, "nonce": {"n"}}, "")
+		if id := strings.TrimPrefix(r.Location, "/login?authRequestID="); id != r.Location {
+			iso.storeBroken.Login(id, "u1")
+			isoReq(iso.provBroken, http.MethodGet, "/authorize/callback", url.Values{"id": {id}}, "")
+		}
 	default:
 		panic("harness: unknown operation " + name)
 	}
